@@ -136,6 +136,12 @@ func LODVal(t *tape.Tape, upper bool) float32 {
 		// exactly on, one below and one above the raster heights the checks
 		// render at: the test is lod0 <= height < lod1
 		h := []int{1, 24, 32, 120, 44, 20}[t.Intn(6)]
+		if t.Chance(1, 3) {
+			// a hair off the height (exactly representable in the 4-byte form):
+			// a bound is a threshold, not a coordinate, and rounding it to 1/64
+			// moves it across the height
+			return float32(h) + []float32{1.0 / 1024, -1.0 / 1024}[t.Intn(2)]
+		}
 		return float32(h + t.Range(-1, 1))
 	}
 	switch t.Pick(3, 2, 1) {
